@@ -19,7 +19,7 @@ type classOperand struct {
 	name string
 }
 
-func classOperands() []classOperand {
+func classOperands(allCohorts bool) []classOperand {
 	var out []classOperand
 	for _, hi := range []uint64{0x7c00000000000000, 0xfc00000000000000, 0x7e00000000000000, 0x7fffffffffffffff, 0x7c00000000000000} {
 		for _, lo := range []uint64{0, 0x010203, ^uint64(0)} {
@@ -37,8 +37,29 @@ func classOperands() []classOperand {
 		q int
 		f float64
 	}{{25, -2, 0.25}, {5, -1, 0.5}, {50, -2, 0.5}, {1, 0, 1}, {10, -1, 1}, {100, -2, 1}, {1000000000000000000, -18, 1}, {175, -2, 1.75}, {25, -1, 2.5}, {3, 0, 3}, {30, -1, 3}, {4, 0, 4}, {2, 1, 20}, {3, 1, 30}, {1, 2, 100}, {15, -1, 1.5}, {2, 0, 2}, {5, 0, 5}, {75, -2, 0.75}}
+	seen := map[ref.Bits]bool{}
 	for _, x := range fin {
-		out = append(out, classOperand{MkBits(false, big.NewInt(x.c), x.q), x.f, fmt.Sprint(x.f)}, classOperand{MkBits(true, big.NewInt(x.c), x.q), -x.f, fmt.Sprint(-x.f)})
+		cs, qs := Cohort(big.NewInt(x.c), x.q)
+		for k := range cs {
+			// binary table: the given encoding plus the members with the smallest and largest coefficient;
+			// unary table (allCohorts): every member (operand-dependent shortcuts often key on coefficient length)
+			given := cs[k].Cmp(big.NewInt(x.c)) == 0
+			if !(allCohorts || given || k == 0 || k == len(cs)-1) {
+				continue
+			}
+			for s := 0; s < 2; s++ {
+				b := MkBits(s == 1, cs[k], qs[k])
+				if seen[b] {
+					continue
+				}
+				seen[b] = true
+				f := x.f
+				if s == 1 {
+					f = -f
+				}
+				out = append(out, classOperand{b, f, fmt.Sprint(f)})
+			}
+		}
 	}
 	return out
 }
@@ -206,7 +227,9 @@ func C15(r *eng.Run) {
 	if !CodecSanity(r) {
 		return
 	}
-	ops := classOperands()
+	ops := classOperands(false)
+	uopsOperands := classOperands(true)
+	r.Bounds["class_operands_unary_all_cohorts"] = len(uopsOperands)
 	r.Bounds["class_operands"] = len(ops)
 	t0 := time.Now()
 	bops := binOps()
@@ -268,8 +291,8 @@ func C15(r *eng.Run) {
 	t0 = time.Now()
 	uops := unOps()
 	r.Bounds["unary_entry_points"] = len(uops)
-	r.Par(len(ops), func(w *eng.W, i int) {
-		x := ops[i]
+	r.Par(len(uopsOperands), func(w *eng.W, i int) {
+		x := uopsOperands[i]
 		xv := ref.Decode(x.b)
 		for _, op := range uops {
 			w.Set1(op.label, "", x.b)
